@@ -302,6 +302,14 @@ impl PortableRegistryBuilder {
     }
 }
 
+#[cfg(all(scale_info_verif, feature = "std"))]
+impl PortableRegistryBuilder {
+    /// Verification hook: structural invariants of the underlying interner.
+    pub fn verif_invariants(&self) -> Result<(), crate::prelude::string::String> {
+        self.types.verif_invariants()
+    }
+}
+
 #[cfg(test)]
 mod tests {
     use scale::Compact;
